@@ -244,6 +244,73 @@ func globalConstArray(g *ssa.Global) ([]byte, bool) {
 	return val, true
 }
 
+// globalConstDigestMap: a package-level map filled by the initialiser with
+// constant keys and constant array values and never written afterwards;
+// returns the values.
+func globalConstDigestMap(g *ssa.Global) ([][]byte, bool) {
+	if _, ok := g.Type().(*types.Pointer).Elem().Underlying().(*types.Map); !ok {
+		return nil, false
+	}
+	var mk *ssa.MakeMap
+	stores, ok := 0, true
+	for fn := range theWorld.AllFunctions() {
+		if fn.Blocks == nil {
+			continue
+		}
+		home := fn
+		for home.Parent() != nil {
+			home = home.Parent()
+		}
+		if home.Pkg != g.Pkg {
+			continue
+		}
+		allInstrs(fn, func(in ssa.Instruction) {
+			switch x := in.(type) {
+			case *ssa.Store:
+				if x.Addr == ssa.Value(g) {
+					stores++
+					m, isMk := x.Val.(*ssa.MakeMap)
+					if !isMk || fn.Name() != "init" || fn.Parent() != nil {
+						ok = false
+					}
+					mk = m
+				}
+			case *ssa.MapUpdate:
+				if ld, isLd := x.Map.(*ssa.UnOp); isLd && ld.X == ssa.Value(g) {
+					ok = false
+				}
+			case ssa.CallInstruction:
+				if bi, isB := x.Common().Value.(*ssa.Builtin); isB && bi.Name() == "delete" {
+					if ld, isLd := x.Common().Args[0].(*ssa.UnOp); isLd && ld.X == ssa.Value(g) {
+						ok = false
+					}
+				}
+			}
+		})
+	}
+	if !ok || stores != 1 || mk == nil {
+		return nil, false
+	}
+	var vals [][]byte
+	for _, ref := range *mk.Referrers() {
+		switch x := ref.(type) {
+		case *ssa.MapUpdate:
+			if _, isK := strip(x.Key).(*ssa.Const); !isK {
+				return nil, false
+			}
+			b, okv := constArrayValue(x.Value)
+			if !okv {
+				return nil, false
+			}
+			vals = append(vals, b)
+		case *ssa.Store:
+		default:
+			return nil, false
+		}
+	}
+	return vals, len(vals) > 0
+}
+
 // constPrefix: the constant bytes the []byte value x certainly starts with.
 // known=false means nothing can be said (treated as empty prefix).
 func constPrefix(x ssa.Value, seen map[ssa.Value]bool) (prefix []byte, neutral bool) {
@@ -364,6 +431,15 @@ func (nt *nodeTypes) classifyHash(fn *ssa.Function, depth int) hashClass {
 func (nt *nodeTypes) classifyHashValue(fn *ssa.Function, rv ssa.Value, depth int) hashClass {
 	rv = strip(rv)
 	switch v := rv.(type) {
+	case *ssa.Lookup:
+		// a package-level table of constant digests indexed by the receiver
+		if ld, ok := v.X.(*ssa.UnOp); ok && ld.Op == token.MUL && !v.CommaOk {
+			if g, ok := ld.X.(*ssa.Global); ok {
+				if vals, ok := globalConstDigestMap(g); ok && len(fn.Params) > 0 && strip(v.Index) == ssa.Value(fn.Params[0]) {
+					return hashClass{kind: "constant", consts: vals, why: "table"}
+				}
+			}
+		}
 	case *ssa.UnOp:
 		if v.Op == token.MUL {
 			if b, ok := constArrayValue(v); ok {
@@ -523,6 +599,9 @@ func ruleHashCover(w *World, r *Report, nt *nodeTypes) {
 					if cond, _, _, ok := branchEdges(b); ok && strip(cond) == ssa.Value(recv) {
 						dep = true
 					}
+				}
+				if cls.why == "table" {
+					dep = true // looked up by the receiver's value
 				}
 				distinct := !bytes.Equal(cls.consts[0], cls.consts[1])
 				r.Check(dep && distinct, rule, key, pos, "the two constant digests are distinct and selected by the receiver's value",
